@@ -655,6 +655,7 @@ func fallbackPanicAfterAbandonedRunProbe(c *hc.Case) {
 	var cfg circuit.Config
 	cfg.Execution.Timeout = 20 * time.Millisecond
 	cfg.General.GoLostErrors = func(error, interface{}) {}
+	cfg.Metrics.Run = []circuit.RunMetrics{pauseOnTimeout{}} // lets whatever was started for the abandoned function settle before the fallback begins
 	cir := circuit.NewCircuitFromConfig("gow-fb-panic", cfg)
 	release := make(chan struct{})
 	defer close(release)
@@ -681,4 +682,11 @@ func fallbackPanicAfterAbandonedRunProbe(c *hc.Case) {
 	case <-time.After(3 * time.Second):
 		c.Viol = append(c.Viol, hc.Violation{Clause: "C10: a panic raised by the run function or the fallback reaches the caller of Go with the same panic value (the call's context has not ended)", Detail: "run function abandoned at its timeout (GoLostErrors configured), fallback panicked: Go had neither returned nor panicked 3 s later", AtOp: 0})
 	}
+}
+
+// pauseOnTimeout is a run collector that takes 10 ms over a timeout report.
+type pauseOnTimeout struct{ inertRun }
+
+func (pauseOnTimeout) ErrTimeout(context.Context, time.Time, time.Duration) {
+	time.Sleep(10 * time.Millisecond)
 }
